@@ -475,7 +475,6 @@ harnesses! {
     c16_dir_csegsize { prop: C16, feat: "c16", tier: quick, mode: leaf, unwind: 4, caps: "drop=1" } => |s| c16::dir_parse(s, 2, 3);
     c16_dir_db { prop: C16, feat: "c16", tier: quick, mode: leaf, unwind: 4, caps: "drop=1" } => |s| c16::dir_parse(s, 3, 4);
     c16_dir_def { prop: C16, feat: "c16", tier: quick, mode: leaf, unwind: 4, caps: "drop=1" } => |s| c16::dir_parse(s, 4, 5);
-    c16_dir_device { prop: C16, feat: "c16", tier: thorough, mode: leaf, unwind: 60, caps: "drop=1" } => |s| c16::dir_parse(s, 5, 6);
     c16_dir_dseg { prop: C16, feat: "c16", tier: quick, mode: leaf, unwind: 4, caps: "drop=1" } => |s| c16::dir_parse(s, 6, 7);
     c16_dir_dw { prop: C16, feat: "c16", tier: quick, mode: leaf, unwind: 4, caps: "drop=1" } => |s| c16::dir_parse(s, 7, 8);
     c16_dir_endm { prop: C16, feat: "c16", tier: quick, mode: leaf, unwind: 4, caps: "drop=1" } => |s| c16::dir_parse(s, 8, 9);
@@ -581,7 +580,6 @@ harnesses! {
     c02_l2_dq { prop: C02, feat: "c02", tier: thorough, mode: leaf, unwind: 18, caps: "drop=1" } => |s| c06::data_w(s, 8, 0);
     // (pass-level step harnesses: src/step.rs is kept for the record, but its harnesses are not
     //  registered - the smallest one did not leave symbolic execution in 60 min, DESIGN.md 4/C02)
-    c12_device_select { prop: C12, feat: "c12", tier: thorough, mode: full, unwind: 60, caps: "run=1,clone=1,drop=1" } => |s| c12::device_select(s);
     c07_hex_4k { prop: C07, feat: "c07", tier: thorough, mode: hex, unwind: 262, caps: "" } => |s| c07::hex_big(s, 4113);
     c07_hex_64k { prop: C07, feat: "c07", tier: thorough, mode: hex, unwind: 4104, caps: "" } => |s| c07::hex_big(s, 65568);
     c05_bin_mul_edge { prop: C05, feat: "c05", tier: quick, mode: full, unwind: 3, caps: "run=2,clone=1,drop=2" } => |s| c05::ev_bin(s, 2, 3, 8);
